@@ -233,6 +233,14 @@ func runC23x(c c23Case) (*vstat.Failure, c23Res) {
 	return nil, res
 }
 
+// c23Fixed are a few hand-written programs with spellings the generator
+// rarely reaches; they are checked like the repository's examples.
+var c23Fixed = []string{
+	"histogram h buckets 1.0, 10000000000.0, 100000000000000000000.0\n/(\\d+)/ {\n  h = $1\n}\n",
+	"histogram h by k buckets 0.5, 9300000000000000000.0, 1e300\n/(\\w+) (\\d+)/ {\n  h[$1] = $2\n}\n",
+	"histogram h buckets 0.0000000001, 1e21\ngauge g\n/(\\d+)/ {\n  h = $1\n  g = 2 * (3 ** 2) / (4 % (5 ** 2))\n  g = 1000000.0 * 1e21 - 0.000001\n}\n",
+}
+
 // c23ExprStmts are expressions that need neither captures nor metrics, written
 // the way the grammar accepts them as statements.
 var c23ExprStmts = []string{
@@ -259,7 +267,7 @@ func TestC23(t *testing.T) {
 			return
 		}
 		if shard == 0 {
-			for _, p := range loadCorpus() {
+			for _, p := range append(loadCorpus(), c23Fixed...) {
 				if len(p) > 8192 {
 					continue
 				}
